@@ -556,7 +556,19 @@ func ruleR04c(h *H) {
 				if !ok {
 					// constructor: persisted term exists
 					e := requirement{"", []func(ir.Cmp) bool{func(c ir.Cmp) bool {
-						return c.Op == token.NEQ && ir.LoadsField(c.L, "server", tn, "term") && isInvalidTerm(h, c.R)
+						if c.Op != token.NEQ || !isInvalidTerm(h, c.R) {
+							return false
+						}
+						if ir.LoadsField(c.L, "server", tn, "term") {
+							return true
+						}
+						// the term just read back from the DB, still in a local
+						if ex, isEx := ir.Canon(c.L).(*ssa.Extract); isEx && ex.Index == 0 {
+							if call, isCall := ex.Tuple.(*ssa.Call); isCall && h.P.Matches(call.Common(), dbReadTerm) {
+								return true
+							}
+						}
+						return false
 					}}}.edges(w.Fn)
 					if len(e) > 0 {
 						if okp, _ := ir.MustPassEdge(w.Fn, nil, w.Instr, e, nil); okp {
